@@ -168,6 +168,10 @@ class GCoord:
         i = self.idx if self.idx >= 0 else self.idx + n
         return (st == "proj" and i == 2) or (st == "jac" and i == 1)
 
+    def __pow__(self, k):
+        # Q[i] ** field_modulus: the Frobenius image of a coordinate (only meaningful as part of a whole point)
+        return FrobCoord(self.pt, self.idx, 1, k, False)
+
     def __eq__(self, o):
         zero = (isinstance(o, int) and not isinstance(o, bool) and o == 0) or \
                (isinstance(o, CoordMarker) and o.which == "zero")
@@ -179,6 +183,34 @@ class GCoord:
         return ~self.__eq__(o)
 
     __hash__ = None
+
+
+class FrobCoord:
+    """(pt[idx]) ** (q ** times), possibly negated: a coordinate of pi^times(pt) resp. of its negative"""
+
+    def __init__(self, pt, idx, times, q, negated):
+        self.pt, self.idx, self.times, self.q, self.negated = pt, idx, times, q, negated
+
+    def __pow__(self, k):
+        if k != self.q or self.negated:
+            raise Unsupported("Frobenius powers with different exponents / of a negated coordinate")
+        return FrobCoord(self.pt, self.idx, self.times + 1, self.q, False)
+
+    def __neg__(self):
+        return FrobCoord(self.pt, self.idx, self.times, self.q, not self.negated)
+
+
+def frob_point(v):
+    """(pt, times, q, negated?) if the tuple v is (x^(q^k), +-y^(q^k)[, z^(q^k)]) of one abstract point, else None"""
+    if not (isinstance(v, tuple) and len(v) in (2, 3) and all(isinstance(c, FrobCoord) for c in v)):
+        return None
+    pt, times, q = v[0].pt, v[0].times, v[0].q
+    if any(c.pt is not pt or c.times != times or c.q != q for c in v) or [c.idx for c in v] != list(range(len(v))):
+        return None
+    negs = [c.negated for c in v]
+    if negs[0] or (len(v) == 3 and negs[2]):
+        return None
+    return pt, times, q, negs[1]
 
 
 class _CoordClass:
